@@ -5,6 +5,7 @@
   Helper lemmas: Mwp/Lemmas/Misc15.lean; `choices_exact` rests on `Props.C04.generate_exact`.
 -/
 import Mwp.Lemmas.Misc15
+import Mwp.Lemmas.ModeIndep
 namespace Mwp.Props.C15
 open Mwp Mwp.Analysis Mwp.Misc15
 
@@ -108,5 +109,34 @@ example : Choices.VecOK Gen.domain 1 [2] := ⟨rfl, by decide⟩
 -- the bound at the accepted choice names both variables
 example : (func fFin true).toOption.map (fun r => r.relation.map (fun rel => (boundAt rel [2]).map (·.1)))
     = some (some ["x", "y"]) := by decide
+
+/-! ## the two modes -/
+
+/-- The early-exit mode only cuts the computation short: whenever the analysis of a function in
+    early-exit mode (`stop = true`) returns a FINITE result, the analysis run to completion
+    (`stop = false`) returns the same result -- same verdict, relation, choice object, index,
+    variables, skipped statements and name.  No side condition on the function: as long as no
+    statement sets the exit flag, what `compute_relation` returns depends neither on the mode nor
+    on the delta graph (`Mwp.compute_indep_of_no_exit`), and run to completion it never sets the
+    flag (`Mwp.compute_complete_no_exit`).  Proof: Mwp/Lemmas/ModeIndep.lean.  (The converse --
+    a finite run to completion is also what the early-exit mode returns -- needs the soundness
+    of the delta-graph collapse: `Mwp.finite_result_same_in_both_modes_conv`, under `FuncOk`.) -/
+theorem finite_result_same_in_both_modes (node : Node) (r1 r2 : FuncRes)
+    (h1 : func node true = .ok r1) (h2 : func node false = .ok r2) (hf : r1.infinite = false) :
+    r2.infinite = false ∧ r1.relation = r2.relation ∧ r1.choices = r2.choices ∧ r1.index = r2.index ∧
+    r1.variables = r2.variables ∧ r1.skipped = r2.skipped ∧ r1.name = r2.name :=
+  Mwp.finite_result_same_in_both_modes node r1 r2 h1 h2 hf
+
+-- `while (x < 10) { x = y + y; }`: finite in early-exit mode, and the same report in both modes
+example : (func fFin true).toOption.map (fun r => (r.infinite, r.index, r.variables))
+    = (func fFin false).toOption.map (fun r => (r.infinite, r.index, r.variables)) := by decide
+example : (func fFin true).toOption.map (fun r => (r.skipped, r.name))
+    = (func fFin false).toOption.map (fun r => (r.skipped, r.name)) := by decide
+example : (func fFin true).toOption.map (fun r => r.relation.map (fun rel => (rel.vars, rel.mat)))
+    = (func fFin false).toOption.map (fun r => r.relation.map (fun rel => (rel.vars, rel.mat))) := by decide
+example : (func fFin true).toOption.map (fun r => r.choices.map (fun c => (c.valid, c.index)))
+    = (func fFin false).toOption.map (fun r => r.choices.map (fun c => (c.valid, c.index))) := by decide
+example : (func fFin false).toOption.map (fun r => (r.infinite, r.index, r.variables)) =
+    some (false, 1, ["x", "y"]) := by decide
 
 end Mwp.Props.C15
